@@ -37,13 +37,32 @@ Definition appl_args_equal (l1 l2 : list (string * option gval)) : bool :=
                      | None => false
                      end) l1.
 
-(* mergeDirectiveListsEqual / mergeDirectiveEqual *)
+(* mergeDirectiveListsEqual / mergeDirectiveEqual: a repeatable directive can be applied more than
+   once; the n-th application of a directive is compared with the n-th application of that
+   directive in the other list *)
+Fixpoint nth_named (n : nat) (name : string) (l : list dirapp) : option dirapp :=
+  match l with
+  | [] => None
+  | d :: r => if String.eqb (da_name d) name
+              then match n with O => Some d | S n' => nth_named n' name r end
+              else nth_named n name r
+  end.
+
+Fixpoint count_named (name : string) (l : list dirapp) : nat :=
+  match l with [] => O | d :: r => (if String.eqb (da_name d) name then 1 else 0) + count_named name r end.
+
+Fixpoint dirs_cmp (seen l1 l2 : list dirapp) : bool :=
+  match l1 with
+  | [] => true
+  | d1 :: r =>
+      match nth_named (count_named (da_name d1) seen) (da_name d1) l2 with
+      | Some d2 => appl_args_equal (da_args d1) (da_args d2) && dirs_cmp (seen ++ [d1]) r l2
+      | None => false
+      end
+  end.
+
 Definition dirlists_equal (l1 l2 : list dirapp) : bool :=
-  Nat.eqb (length l1) (length l2) &&
-  forallb (fun d1 => match find_dir (da_name d1) l2 with
-                     | Some d2 => appl_args_equal (da_args d1) (da_args d2)
-                     | None => false
-                     end) l1.
+  Nat.eqb (length l1) (length l2) && dirs_cmp [] l1 l2.
 
 (* mergeArgumentDefinitions *)
 Definition merge_argdef (ignore_default : bool) (p n : argdef) : res argdef :=
@@ -198,10 +217,12 @@ Definition merge_locations (l1 l2 : list string) : res (list string) :=
 
 (* mergeDirectives *)
 Definition merge_dirdef (p n : dirdef) : res dirdef :=
+  if negb (Bool.eqb (dd_repeatable p) (dd_repeatable n)) then Err "conflict in repeatability"
+  else
   locs <- merge_locations (dd_locs p) (dd_locs n) ;;
   args <- merge_argdefs (dd_builtin p) (dd_args p) (dd_args n) ;;
   Ok {| dd_name := dd_name p; dd_desc := first_desc (dd_desc p) (dd_desc n); dd_locs := locs;
-        dd_args := args; dd_builtin := dd_builtin p |}.
+        dd_args := args; dd_builtin := dd_builtin p; dd_repeatable := dd_repeatable p |}.
 
 Fixpoint merge_dir_group (p : dirdef) (rest : list dirdef) : res dirdef :=
   match rest with
